@@ -8,7 +8,8 @@ EXPLANATION = ("C20 (feature ram_bundle): (R1) the header and table-entry layout
                "(R4) fields are widened before arithmetic and offsets are header + id*entry, startup + entry.offset, length-1; "
                "(R5) the module iterator skips exactly the empty slots; (R6) recognition is a sibling of parse; (R7) "
                "panic-freedom of the six observed entry points (64-bit usize)."
-               " (R8) the crate's iterators implement `next` only; (R6b) the RamBundle wrappers return only what the selected flavour returned.")
+               " (R8) the crate's iterators implement `next` only; (R6b) the RamBundle wrappers return only what the selected flavour returned."
+               " (R9) parse fails only for the reviewed reasons (a header that cannot be read, or a wrong magic).")
 NOT_DECIDED = "byte-exact equality of returned slices with what a writer wrote; scroll's own bounds checks (trusted)."
 ASSUMPTIONS = ["crate built with feature ram_bundle"]
 
